@@ -11,7 +11,7 @@ from ..loader import dotted, walk_no_nested
 def none_tests(ctx, rule, f, attr_names, what):
     """every `if` / conditional expression of f whose test reads one of attr_names (as attribute or as a local bound
     to it) compares it with None explicitly"""
-    local = set()
+    local = {p for p in f.params if p in attr_names}
     for n in walk_no_nested(f.node):
         if isinstance(n, ast.Assign) and isinstance(n.value, ast.Attribute) and n.value.attr in attr_names:
             for t in n.targets:
@@ -29,6 +29,18 @@ def none_tests(ctx, rule, f, attr_names, what):
             continue
         for x in reads:
             p = getattr(x, "parent", None)
+            # only reads in a truth-value position of the test: the test itself, an operand of not / and / or, or the
+            # left side of a comparison - not a value used deeper inside (iteration source, call argument, subscript)
+            q, child, truthpos = p, x, True
+            while child is not t:
+                if isinstance(q, ast.BoolOp) or isinstance(q, ast.UnaryOp) and isinstance(q.op, ast.Not) or \
+                        isinstance(q, ast.Compare) and q.left is child and child is x:
+                    child, q = q, getattr(q, "parent", None)
+                    continue
+                truthpos = False
+                break
+            if not truthpos:
+                continue
             n_t += 1
             explicit = isinstance(p, ast.Compare) and len(p.ops) == 1 and isinstance(p.ops[0], (ast.Is, ast.IsNot)) and \
                 isinstance(p.comparators[0], ast.Constant) and p.comparators[0].value is None and p.left is x
